@@ -29,6 +29,7 @@ type Obligation struct {
 	Output   string
 	Model    string
 	Gen      string // non-empty: could not be generated (reason)
+	Known    bool   // listed as a known finding: expected to fail, short timeout, no retry
 }
 
 const prelude = `
@@ -93,6 +94,9 @@ func Discharge(o *Obligation, scratch string, timeoutS int, only string) {
 	base := filepath.Join(scratch, sanitize(o.Name))
 	if o.ExpectSat && timeoutS > 3 {
 		timeoutS = 3
+	}
+	if o.Known && timeoutS > 4 {
+		timeoutS = 4
 	}
 	type res struct {
 		v, out, name string
@@ -209,7 +213,7 @@ func DischargeAll(obls []*Obligation, scratch string, timeoutS int, par int) {
 			if o.ExpectSat {
 				want = "sat"
 			}
-			if !o.ExpectSat && o.Result != want && o.Result != "cannot-generate" && o.Result != "sat" && o.Result != "unsat" {
+			if !o.ExpectSat && !o.Known && o.Result != want && o.Result != "cannot-generate" && o.Result != "sat" && o.Result != "unsat" {
 				// retry once with 6x timeout: load must not become an alarm
 				Discharge(o, scratch, timeoutS*6, "")
 			}
